@@ -21,12 +21,12 @@ import (
 	"verif/harness/hx"
 )
 
-// Some datagrams make the ASN.1 library used by the snmp service allocate a buffer of
-// an attacker-chosen size (make([]byte, length) in decodeRawValue), which ends the
-// whole process with "fatal error: out of memory".  That is outside this property
-// (no response is sent), so such payloads are found in a child process with a 4 GiB
-// address-space limit and left out of the histories; they are counted and the first
-// one is kept as a witness.
+// A datagram could make the ASN.1 library used by the snmp service allocate a buffer of
+// an attacker-chosen size (make([]byte, length) in decodeRawValue) and end the whole
+// process with "fatal error: out of memory" (30 85 40 00 00 00 00 did, before snmp.go
+// checked the declared lengths).  Every snmp payload is therefore first handled in a
+// child process with a 4 GiB address-space limit; a payload that kills the child is
+// not run in this process and its case is reported as a crash.
 
 // screenChild: payloads (hex, one JSON array on stdin) are handled one by one by a
 // new snmp instance; the index is printed after each survivor.
